@@ -86,6 +86,28 @@ func ruleR01_1(p *Program, r *Report) {
 			r.Check(eqInts(vals, rfcCodeLengthOrder), "R01.1", "flate.codeLengthOrder", p.Pos(fn.Pos()), "decoder's code-length-code order equals RFC 1951 3.2.7 (and the encoder's)", fmt.Sprint(vals))
 		}
 		if !found {
+			// the table hoisted to package level: a 19-entry array global the function indexes
+			seenG := map[*ssa.Global]bool{}
+			for _, b := range fn.Blocks {
+				for _, in := range b.Instrs {
+					for _, op := range in.Operands(nil) {
+						g, ok := (*op).(*ssa.Global)
+						if !ok || seenG[g] {
+							continue
+						}
+						seenG[g] = true
+						if at, ok := derefArray(g.Type()); !ok || at.Len() != 19 {
+							continue
+						}
+						if vals, err := p.globalInts(flateRel, g.Name()); err == nil {
+							found = true
+							r.Check(eqInts(vals, rfcCodeLengthOrder), "R01.1", "flate.codeLengthOrder", p.Pos(fn.Pos()), "decoder's code-length-code order equals RFC 1951 3.2.7 (and the encoder's)", fmt.Sprint(vals))
+						}
+					}
+				}
+			}
+		}
+		if !found {
 			r.Undecided("R01.1", "flate.codeLengthOrder", p.Pos(fn.Pos()), "decoder has a 19-entry order table", "not found")
 		}
 	} else {
@@ -1739,7 +1761,11 @@ func ruleR02_7(p *Program, r *Report) {
 							hasSym = true
 						}
 						if al, ok := x.X.(*ssa.IndexAddr); ok {
-							if _, isAlloc := al.X.(*ssa.Alloc); isAlloc {
+							base := al.X
+							if sl, isSl := base.(*ssa.Slice); isSl { // a range over tempCodeList[:n]
+								base = sl.X
+							}
+							if _, isAlloc := base.(*ssa.Alloc); isAlloc {
 								hasSym = true
 							}
 						}
@@ -1909,6 +1935,41 @@ func regionAllCalls(fn *ssa.Function) []ssa.CallInstruction {
 // selected by equality tests of its parameter with constants; returns the map parameter value -> result (results
 // equal to the default 0 are left out).
 func constMapping(v ssa.Value) (map[int64]int64, bool) {
+	if phi, ok := v.(*ssa.Phi); ok {
+		// a local set to a constant in the arms of a switch on one value (extraBits = 2 / 3 / 7, else 0)
+		out := map[int64]int64{}
+		var subject ssa.Value
+		for i, e := range phi.Edges {
+			rv, isK := constInt(e)
+			if !isK {
+				return nil, false
+			}
+			if rv == 0 {
+				continue
+			}
+			pred := phi.Block().Preds[i]
+			found := false
+			for _, f := range dominatingFacts(pred.Instrs[len(pred.Instrs)-1]) {
+				if f.Y == nil || f.Op != token.EQL {
+					continue
+				}
+				if k, ok := constInt(f.Y); ok {
+					x := stripConv(f.X)
+					if subject == nil {
+						subject = x
+					}
+					if x == subject {
+						out[k] = rv
+						found = true
+					}
+				}
+			}
+			if !found {
+				return nil, false
+			}
+		}
+		return out, len(out) > 0
+	}
 	c, ok := v.(*ssa.Call)
 	if !ok {
 		return nil, false
